@@ -1,5 +1,5 @@
 """C16 - cutting along singularities yields a disk with faces in bijection (SingularityCutter)."""
-import math
+import math, io, contextlib
 from collections import defaultdict
 import numpy as np
 from hypothesis import strategies as st
@@ -20,6 +20,10 @@ RULE = ("Connected oriented triangulated surfaces built by the harness: grids, c
         "neighbours, all vertices; given as a list or as a vertex attribute (as the in-repo callers do). Cutter run without "
         "features, with a FeatureEdgeDetector (sharp edges, declared hard edges) or with an only-border detector. The output "
         "mesh, cut_edges, cut_adj, ref_vertex and cut_graph are compared with topology computed from the raw face lists. "
+        "The cutter's verbose option is drawn (stdout captured: silent iff not verbose); the results output_mesh, cut_edges, "
+        "cut_graph, cut_adj, ref_vertex are read in a drawn order followed by 0-4 re-reads, every read of one result must agree and "
+        "the oracles use the last values; the singularities argument (list / tuple / int64 array / vertex attribute) and the "
+        "detector's sets must be unchanged afterwards; inputs uniformly scaled by 1e-6..1e6. "
         "Sub-check cut_twice cuts the same mesh object a second time with an independent cutter "
         "(other / same / subset / empty singularity set, features on or off in either order, detector reused or re-run), applies "
         "every oracle to the second result too and checks that the input mesh's vertices and faces are unchanged. "
@@ -223,6 +227,17 @@ def _pick(draw, n):
     return draw(st.integers(0, 10 ** 6)) % n
 
 
+RESULTS = ["output_mesh", "cut_edges", "cut_graph", "cut_adj", "ref_vertex"]
+
+
+@st.composite
+def read_order(draw):
+    """every result attribute once, in a drawn order, followed by 0-4 re-reads"""
+    first = list(draw(st.permutations(RESULTS)))
+    again = draw(st.lists(st.sampled_from(RESULTS), max_size=4))
+    return first + again
+
+
 @st.composite
 def cut_case(draw, big=False, twice=False):
     V, F, tags = draw(trisurface(big=big))
@@ -312,8 +327,15 @@ def cut_case(draw, big=False, twice=False):
         if float(ar.min()) < 1e-9 * scale * scale:
             feat, hard = "none", []       # stated assumption: degenerate triangles are cut without a detector
             tags = tags + ["degenerate->no-features"]
+    # uniform scale (the property is topological: nothing may depend on the unit of length)
+    sc = draw(st.sampled_from([1.0, 1.0, 1.0, 1.0, 1e-3, 1e-6, 1e3, 1e6]))
+    if sc != 1.0:
+        V = (np.array(V, dtype=float) * sc).tolist()
+        tags = tags + [f"scale={sc:g}"]
     case = {"V": V, "F": F, "tags": tags, "singus": S, "mode": mode, "features": feat, "hard": hard,
-            "singu_form": draw(st.sampled_from(["list", "list", "list", "attribute"]))}
+            "singu_form": draw(st.sampled_from(["list", "list", "attribute", "numpy", "tuple", "list"])),
+            "verbose": draw(st.booleans()), "detector_verbose": draw(st.integers(0, 3)) == 0,
+            "reads": draw(read_order())}
     if twice:
         # a second, independent cutter on the very same mesh object
         how = draw(st.sampled_from(["other", "other", "same", "subset", "empty"]))
@@ -335,7 +357,8 @@ def cut_case(draw, big=False, twice=False):
             if float(ar.min()) < 1e-9 * scale * scale:
                 f2 = "none"
         case["second"] = {"singus": [int(x) for x in S2], "features": f2, "how": how,
-                          "reuse_detector": draw(st.booleans())}
+                          "reuse_detector": draw(st.booleans()), "verbose": draw(st.booleans()),
+                          "reads": draw(read_order())}
     return case
 
 
@@ -476,79 +499,149 @@ def kf_sphere_two_adjacent_singularities(case, violation):
 
 # --------------------------------------------------------------------------------- running the library
 
-def make_detector(ctx, M, m, feat, pre=""):
+def make_detector(ctx, M, m, feat, pre="", verbose=False):
     """returns (ok, detector or None)"""
     if feat == "none":
         return True, None
-    fd = M.processing.FeatureEdgeDetector(only_border=(feat == "only_border"), verbose=False)
-    ok, _ = ctx.call(pre + "feature-detector", fd.run, m)
+    with contextlib.redirect_stdout(io.StringIO()):
+        fd = M.processing.FeatureEdgeDetector(only_border=(feat == "only_border"), verbose=verbose)
+        ok, _ = ctx.call(pre + "feature-detector", fd.run, m)
     return ok, fd
 
 
-def cut_and_check(ctx, M, m, V, F, S, feat, fd, sing, pre, info):
-    """one cutter on mesh object m; every oracle, signatures prefixed with `pre`. Returns the cutter or None."""
+def _snapshot(M, name, val):
+    """plain-data copy of one result attribute (None stays None)"""
+    if val is None:
+        return None
+    if name == "output_mesh":
+        if not isinstance(val, M.mesh.SurfaceMesh):
+            return ("bad-type", type(val).__name__)
+        return ([[float(x) for x in v] for v in val.vertices], [ints(f) for f in val.faces])
+    if name == "cut_edges":
+        if not isinstance(val, (set, frozenset, list)) or not all(isinstance(e, (int, np.integer)) for e in val):
+            return ("bad-type", str(val)[:200])
+        return sorted(int(e) for e in val)
+    if name == "cut_adj":
+        if not isinstance(val, dict):
+            return ("bad-type", type(val).__name__)
+        return {(int(k) if isinstance(k, (int, np.integer)) else repr(k)): sorted(ints(w)) for k, w in val.items()}
+    if name == "ref_vertex":
+        if not isinstance(val, dict):
+            return ("bad-type", type(val).__name__)
+        return {int(k): int(w) for k, w in val.items()}
+    if name == "cut_graph":
+        if not isinstance(val, M.mesh.PolyLine):
+            return ("bad-type", type(val).__name__)
+        return ([[float(x) for x in v] for v in val.vertices], [tuple(ints(e)) for e in val.edges])
+    raise HarnessError("unknown result " + name)
+
+
+def cut_and_check(ctx, M, m, V, F, S, feat, fd, sing, pre, info, verbose=False, reads=None):
+    """one cutter on mesh object m; the result attributes are read in the order `reads` (with re-reads); every oracle is
+    applied to the values seen LAST, and every read of one attribute must give the same value. Signatures prefixed with
+    `pre`. Returns the cutter or None."""
+    reads = list(reads or RESULTS)
+    for r in RESULTS:
+        if r not in reads:
+            reads.append(r)
+    if "ref_vertex" not in reads[reads.index("output_mesh"):]:
+        reads.append("ref_vertex")           # the map is filled when the cut mesh is built: read it (again) afterwards
     rin = SurfRef(len(V), F)
     A = np.array(V, dtype=float)
-    scale = max(1.0, float(np.abs(A).max()))
-    ok, cutter = ctx.call(pre + "cutter:init", M.processing.SingularityCutter, m, sing, features=fd)
+    scale = float(np.abs(A).max()) or 1.0
+    # arguments are snapshotted: the cutter may not change them
+    if isinstance(sing, (list, tuple, np.ndarray)):
+        sing_before = [int(x) for x in sing]
+    else:                                   # vertex attribute, as the in-repo callers pass it
+        sing_before = {int(k): int(sing[k]) for k in sing}
+    fd_before = None if fd is None else (set(fd.feature_edges), set(fd.feature_vertices))
+    sink = io.StringIO()
+    with contextlib.redirect_stdout(sink):
+        ok, cutter = ctx.call(pre + "cutter:init", M.processing.SingularityCutter, m, sing, features=fd, verbose=verbose)
+        if ok:
+            ok, _ = ctx.call(pre + "cutter:run", cutter.run)
     if not ok:
         return None
-    ok, _ = ctx.call(pre + "cutter:run", cutter.run)
-    if not ok:
-        return None
-    ok, out = ctx.call(pre + "cutter:output_mesh", lambda: cutter.output_mesh)
-    if not ok:
-        return None
-    if not ctx.check(isinstance(out, M.mesh.SurfaceMesh), pre + "output:type", f"output_mesh is a {type(out).__name__}"):
-        return None
+    if verbose:
+        ctx.check("SingularityCutter" in sink.getvalue(), pre + "verbose:silent", "verbose=True but run() printed nothing")
+    else:
+        ctx.check(sink.getvalue() == "", pre + "verbose:not-silent", f"verbose=False but run() printed {sink.getvalue()[:120]!r}")
 
-    # ---- read what the cutter exposes
+    seen = {r: [] for r in RESULTS}          # attribute -> list of (position in the read sequence, snapshot)
+    built = False                            # ref_vertex is filled when the cut mesh is built, i.e. at the first output_mesh read
+    with contextlib.redirect_stdout(io.StringIO()):
+        for pos, r in enumerate(reads):
+            okr, val = ctx.call(pre + ("cutter:output_mesh" if r == "output_mesh" else r), lambda: getattr(cutter, r))
+            if not okr:
+                return None
+            if r == "output_mesh":
+                built = True
+            if r == "ref_vertex" and not built and val is None:
+                continue
+            seen[r].append((pos, _snapshot(M, r, val)))
+    where = f"read order {reads}"
+    final = {}
+    for r in RESULTS:
+        if not ctx.check(len(seen[r]) > 0 and seen[r][-1][1] is not None, pre + r + ":missing", f"{r} is None after run() and after output_mesh was read ({where})"):
+            return None
+        final[r] = seen[r][-1][1]
+        if not ctx.check(not (isinstance(final[r], tuple) and len(final[r]) == 2 and final[r][0] == "bad-type"),
+                         pre + ("output:type" if r == "output_mesh" else r + ":type"), f"{r} has an unexpected type: {final[r]}"):
+            return None
+        diff = [p for p, snap in seen[r] if snap != final[r]]
+        ctx.check(not diff, pre + "reads:" + r + "-changes",
+                  f"{r} read at positions {diff} of the sequence differs from its last read (position {seen[r][-1][0]}): reading the "
+                  f"other results changed it ({where})")
+
+    # ---- values the oracles are applied to
     medges = [tuple(ints(e)) for e in m.edges]
     ekeys = [key(e) for e in medges]
     if not ctx.check(set(ekeys) == rin.uedges and len(set(ekeys)) == len(ekeys), pre + "input:edges",
                      "edge list of the input mesh differs from the edges implied by its faces"):
         return None
-    ce = cutter.cut_edges
-    good = isinstance(ce, (set, frozenset, list)) and all(isinstance(e, (int, np.integer)) and 0 <= e < len(medges) for e in ce)
-    if not ctx.check(good, pre + "cut_edges:type", f"cut_edges is not a collection of edge indices of the input mesh: {str(ce)[:200]}"):
+    ce = final["cut_edges"]
+    if not ctx.check(all(0 <= e < len(medges) for e in ce), pre + "cut_edges:type",
+                     f"cut_edges is not a collection of edge indices of the input mesh: {str(ce)[:200]}"):
         return None
-    ce = set(int(e) for e in ce)
     cut_keys = set(ekeys[e] for e in ce)
-    outV = [[float(x) for x in v] for v in out.vertices]
-    outF = [ints(f) for f in out.faces]
-    rv = cutter.ref_vertex
-    if isinstance(rv, dict):
-        rv = {int(k): int(v) for k, v in rv.items()}
+    outV, outF = final["output_mesh"]
+    rv = final["ref_vertex"]
+    info = info + f", verbose={verbose}, {where}"
 
     for sig, okk, msg in evaluate(V, F, S, outV, outF, rv, cut_keys, scale):
         ctx.check(okk, pre + sig, msg + f" | singularities {S[:12]}, features={feat}, {info}")
 
     # ---- cut_adj = adjacency lists of the cut graph (docstring)
-    ca = cutter.cut_adj
-    if ctx.check(isinstance(ca, dict), pre + "cut_adj:type", f"cut_adj is a {type(ca).__name__}"):
-        exp = defaultdict(set)
-        for (a, b) in cut_keys:
-            exp[a].add(b); exp[b].add(a)
-        bad = [(v, sorted(ints(ca.get(v, ()))), sorted(exp.get(v, ()))) for v in range(len(V))
-               if set(ints(ca.get(v, ()))) != exp.get(v, set())]
-        bad += [(v, sorted(ints(ca[v])), []) for v in ca if not (isinstance(v, (int, np.integer)) and 0 <= v < len(V)) and ca[v]]
-        ctx.check(not bad, pre + "cut_adj:matches-cut_edges", f"(vertex, cut_adj, neighbours through cut_edges): {bad[:4]}")
+    ca = final["cut_adj"]
+    exp = defaultdict(set)
+    for (a, b) in cut_keys:
+        exp[a].add(b); exp[b].add(a)
+    bad = [(v, ca.get(v, []), sorted(exp.get(v, ()))) for v in range(len(V)) if set(ca.get(v, [])) != exp.get(v, set())]
+    bad += [(v, ca[v], []) for v in ca if not (isinstance(v, int) and 0 <= v < len(V)) and ca[v]]
+    ctx.check(not bad, pre + "cut_adj:matches-cut_edges", f"(vertex, cut_adj, neighbours through cut_edges): {bad[:4]} | {info}")
 
     # ---- cut_graph: "the cut edges as a Polyline"
-    ok, cg = ctx.call(pre + "cut_graph", lambda: cutter.cut_graph)
-    if ok:
-        if ctx.check(isinstance(cg, M.mesh.PolyLine), pre + "cut_graph:type", f"cut_graph is a {type(cg).__name__}"):
-            P = np.array([[float(x) for x in v] for v in cg.vertices], dtype=float).reshape(-1, 3)
-            ge = [tuple(ints(e)) for e in cg.edges]
-            okidx = all(0 <= a < len(P) and 0 <= b < len(P) for a, b in ge)
-            if ctx.check(okidx and len(ge) == len(cut_keys), pre + "cut_graph:edges",
-                         f"cut_graph has {len(ge)} edges over {len(P)} vertices, cut_edges has {len(cut_keys)}"):
-                def seg(p, q):
-                    p = tuple(np.round(np.asarray(p) / (1e-9 * scale)).astype(np.int64)); q = tuple(np.round(np.asarray(q) / (1e-9 * scale)).astype(np.int64))
-                    return (min(p, q), max(p, q))
-                got = sorted(seg(P[a], P[b]) for a, b in ge)
-                want = sorted(seg(A[a], A[b]) for a, b in cut_keys)
-                ctx.check(got == want, pre + "cut_graph:geometry", "segments of cut_graph are not the segments of the cut edges")
+    P, ge = final["cut_graph"]
+    P = np.array(P, dtype=float).reshape(-1, 3)
+    okidx = all(0 <= a < len(P) and 0 <= b < len(P) for a, b in ge)
+    if ctx.check(okidx and len(ge) == len(cut_keys), pre + "cut_graph:edges",
+                 f"cut_graph has {len(ge)} edges over {len(P)} vertices, cut_edges has {len(cut_keys)} | {info}"):
+        def seg(p, q):
+            p = tuple(np.round(np.asarray(p) / (1e-9 * scale)).astype(np.int64)); q = tuple(np.round(np.asarray(q) / (1e-9 * scale)).astype(np.int64))
+            return (min(p, q), max(p, q))
+        got = sorted(seg(P[a], P[b]) for a, b in ge)
+        want = sorted(seg(A[a], A[b]) for a, b in cut_keys)
+        ctx.check(got == want, pre + "cut_graph:geometry", "segments of cut_graph are not the segments of the cut edges | " + info)
+
+    # ---- the arguments are left as they were
+    if isinstance(sing_before, dict):
+        sing_after = {int(k): int(sing[k]) for k in sing}
+    else:
+        sing_after = [int(x) for x in sing]
+    ctx.check(sing_after == sing_before, pre + "argument-changed:singularities", f"singularities argument was {sing_before}, is now {sing_after}")
+    if fd is not None:
+        ctx.check((set(fd.feature_edges), set(fd.feature_vertices)) == fd_before, pre + "argument-changed:features",
+                  "the feature detector's feature_edges / feature_vertices changed during the cut")
     return cutter
 
 
@@ -603,16 +696,29 @@ def fn(case, ctx):
 
     hard = [tuple(e) for e in case.get("hard", [])]
     m = surface_from(V, F, E=hard or None)
-    ok, fd = make_detector(ctx, M, m, feat)
+    ok, fd = make_detector(ctx, M, m, feat, verbose=bool(case.get("detector_verbose")))
     if not ok:
         return
-    if case["singu_form"] == "attribute":
+    form = case["singu_form"]
+    if form == "attribute":
         sing = m.vertices.create_attribute("singuls", int)
         for s in S:
             sing[s] = 1 if s % 2 == 0 else -1
+    elif form == "numpy":
+        sing = np.array(S, dtype=np.int64)
+    elif form == "tuple":
+        sing = tuple(S)
     else:
         sing = list(S)
-    cutter = cut_and_check(ctx, M, m, V, F, S, feat, fd, sing, "", info)
+    verbose = bool(case.get("verbose"))
+    reads = case.get("reads") or list(RESULTS)
+    ctx.label("verbose" if verbose else "quiet", "first-read=" + reads[0],
+              "ref_vertex-read-before-output_mesh" if reads.index("ref_vertex") < reads.index("output_mesh") else "ref_vertex-read-after-output_mesh",
+              "cut_edges-reread-after-cut_graph" if any(r == "cut_edges" for r in reads[reads.index("cut_graph") + 1:]) else "cut_edges-not-reread-after-cut_graph",
+              "re-reads" if len(reads) > len(RESULTS) else "no-re-reads")
+    sc = [t for t in case["tags"] if t.startswith("scale=")]
+    ctx.label(sc[0] if sc else "scale=1")
+    cutter = cut_and_check(ctx, M, m, V, F, S, feat, fd, sing, "", info, verbose=verbose, reads=reads)
     if cutter is None:
         return
     if fd is not None and cutter.has_features:
@@ -628,11 +734,18 @@ def fn(case, ctx):
     if f2 == feat and sec.get("reuse_detector") and fd is not None:
         fd2 = fd
     else:
-        ok, fd2 = make_detector(ctx, M, m, f2, "second:")
+        ok, fd2 = make_detector(ctx, M, m, f2, "second:", verbose=bool(case.get("detector_verbose")))
         if not ok:
             return
     ctx.label("second:how=" + sec["how"], f"second:features {feat}->{f2}")
-    c2 = cut_and_check(ctx, M, m, V, F, S2, f2, fd2, list(S2), "second:", info + f" (second cut of the same mesh object; first cut: singularities {S[:12]}, features={feat})")
+    # the same argument object is handed over again when the set is the same and it is a plain sequence
+    sing2 = sing if (sec["how"] == "same" and form in ("list", "tuple", "numpy") and S2 == S) else list(S2)
+    if sing2 is sing:
+        ctx.label("second:same-argument-object")
+    ctx.label("second:verbose " + ("on" if verbose else "off") + "->" + ("on" if sec.get("verbose") else "off"))
+    c2 = cut_and_check(ctx, M, m, V, F, S2, f2, fd2, sing2, "second:",
+                       info + f" (second cut of the same mesh object; first cut: singularities {S[:12]}, features={feat})",
+                       verbose=bool(sec.get("verbose")), reads=sec.get("reads") or list(RESULTS))
     if c2 is None:
         return
     if cutter.has_features and fd2 is not None and c2.has_features:
@@ -694,9 +807,9 @@ def self_test():
 
 
 SUBCHECKS = [
-    SubCheck("cut_small", cut_case(big=False), fn, quick=1600, thorough=2500),
-    SubCheck("cut_twice", cut_case(big=False, twice=True), fn, quick=1000, thorough=1500),
-    SubCheck("cut_large", cut_case(big=True), fn, quick=160, thorough=400, watchdog=(60, 240)),
+    SubCheck("cut_small", cut_case(big=False), fn, quick=1200, thorough=2500),
+    SubCheck("cut_twice", cut_case(big=False, twice=True), fn, quick=800, thorough=1500),
+    SubCheck("cut_large", cut_case(big=True), fn, quick=120, thorough=400, watchdog=(60, 240)),
 ]
 
 MATCHERS = {"kf_sphere_two_adjacent_singularities": kf_sphere_two_adjacent_singularities}
